@@ -47,6 +47,7 @@ DECIDING = {
     "contexts_mixing_3plus_routes": "relative order across >= 3 registration routes observed",
     "async_callbacks_with_checkpoints": "non-overlap observable (async callbacks that yield)",
     "programs_with_2plus_raising": "several callbacks raising in one teardown",
+    "callback_reraised_block_exception": "a pass_exception / @context_teardown callback re-raising the exception it received",
     "driver_stack": "exit driven by AsyncExitStack",
     "driver_manual": "exit driven by explicit __aexit__",
     "driven_inside_except_handler": "exit driven inside a caller's except handler",
